@@ -1,4 +1,5 @@
 """Checks for the pure-codec properties."""
+import re
 import core
 from core import Rng, log
 from proto import *
@@ -224,3 +225,518 @@ def regress_cases(pid):
     if not os.path.exists(p):
         return []
     return [e["case"] for e in json.load(open(p)) if pid in e["properties"]]
+
+
+# ------------------------------------------------------------------ shared helpers
+def limit_checks(chk, pid, eng):
+    """the measured nesting limit: a crash while probing is a C04 violation; C02 needs >= 16"""
+    lim, crash = eng.limit_probe
+    chk.extra["measured_nesting_limit"] = lim
+    if crash is not None:
+        d, o = crash
+        chk.extra["limit_probe_crash"] = dict(depth=d, obs=short(o, 200))
+    return lim, crash
+
+
+def typed_by(g, m):
+    """does the dictionary declare each AVP's data type (recursively)?"""
+    table = {}
+    for d in g.defs:
+        table[(d["code"], d["vendor"])] = d["ty"]
+
+    def ok(a):
+        vd = None if a["vendor"] == "-" else int(a["vendor"], 16)
+        ty = table.get((int(a["code"], 16), vd))
+        v = a["val"]
+        if v[0] == "L":
+            return ty == KIND_TY.get(v[1])
+        return ty == "grp" and all(ok(x) for x in v[1])
+    return all(ok(a) for a in m["avps"])
+
+
+def msg_depth(m):
+    def d(a):
+        v = a["val"]
+        return 0 if v[0] == "L" else 1 + max([d(x) for x in v[1]] + [0])
+    return max([d(a) for a in m["avps"]] + [0])
+
+
+def msg_text(obs):
+    """'OK M ... ENC x..' / 'R ok st M ... ENC x..' -> 'M ...'"""
+    i = obs.index("M ")
+    j = obs.rindex(" ENC ")
+    return obs[i:j]
+
+
+# ------------------------------------------------------------------ C02
+def check_C02(chk, tier, seed):
+    rng = Rng(seed).fork("C02")
+    eng = engine_codec.setup(chk, rng)
+    lim, crash = limit_checks(chk, "C02", eng)
+    if lim is None or lim < 16:
+        chk.violation(f"the decoder's nesting limit is {lim}, the property requires at least 16 levels"
+                      if lim is not None else "no nesting limit found: nesting is unbounded (see C04) - groups nested to any depth are entered",
+                      dict(case=f"X g {xb(gen.nested_groups_frame(16, 1008))}", measured_limit=lim, probe=str(crash)[:300]))
+    n = 2500 if tier == "quick" else 150000
+    cases = exhaustive_type_table(eng) + regress_cases("C02") + gen_histories(rng, eng, n, big=True)
+    # depth sweep 1 .. lim + 2
+    grp = [d for d in eng.dicts["g"].live() if d["ty"] == "grp" and d["vendor"] is None][0]
+    leafdef = [d for d in eng.dicts["g"].live() if d["ty"] == "u32" and d["vendor"] is None][0]
+    for depth in range(1, (lim or 32) + 3):
+        v = ("L", ("u32", depth))
+        e = ("E", leafdef["code"], None, 0x40, v)
+        for _ in range(depth):
+            e = ("E", grp["code"], None, 0, ("GN", [e]))
+        cases.append(hist_line("g", ("NEW", 272, 4, 0x80, 1, 2), [("ADD", e)]))
+    impl, model = eng.run(cases)
+    stage2 = []
+    idx = []
+    for i, (c, im) in enumerate(zip(cases, impl)):
+        if im.startswith("R ok") and " ENC x" in im:
+            did = c.split()[1]
+            stage2.append(f"X {did} {im[im.rindex(' ENC ') + 5:]}")
+            idx.append(i)
+    impl2, model2 = eng.run(stage2)
+    for k, i in enumerate(idx):
+        c, im, mo = cases[i], impl[i], model[i]
+        mobs, o = split_obs(mo)
+        did = c.split()[1]
+        try:
+            r1 = parse_result(im)
+        except Exception as e:
+            chk.corr_break(f"unparsable observation {e}", dict(case=c, impl=short(im)))
+            continue
+        m1 = r1["msg"]
+        d = msg_depth(m1)
+        in_dom = o.get("WD") == "1" and typed_by(eng.dicts[did], m1) and d <= (lim or 0)
+        chk.case(c, bool(m1["avps"]))
+        chk.count("depth:%d" % d)
+        chk.count("in_domain" if in_dom else "outside_domain")
+        chk.validated += 1
+        i2, m2 = impl2[k], model2[k]
+        m2obs, _ = split_obs(m2)
+        if i2.startswith("PANIC") or i2.startswith("CRASH"):
+            chk.violation("decoding the library's own encoding crashed", dict(case=stage2[k], impl=short(i2)))
+            continue
+        if in_dom:
+            ok = i2.startswith("OK ") and msg_text(i2) == msg_text(im) and i2[i2.rindex(" ENC "):] == im[im.rindex(" ENC "):]
+            if not ok:
+                chk.violation("decode(encode(m)) differs from m (header fields, AVP order, code, vendor, flags, type, value, reported lengths)",
+                              dict(case=c, stage2=short(stage2[k], 3000), original=short(im, 3000), decoded=short(i2, 3000)))
+            elif k % max(1, len(idx) // 5) == 0:
+                chk.sample(dict(case=short(c, 300), decoded=short(i2, 200), P=True))
+        if i2 != m2obs:
+            chk.corr_break("decoder observation differs from the model on an encoded frame", dict(case=stage2[k], impl=short(i2, 3000), model=short(m2obs, 3000)))
+        if im != mobs and in_dom:
+            chk.corr_break("builder/encoder observation differs from the model", dict(case=c, impl=short(im, 3000), model=short(mobs, 3000)))
+    chk.rule = ("type/flag/residue table + regression corpus + generated construction histories over 3 dictionaries (built-in XML, programmatic, "
+                "generated XML) + depth sweep 1..limit+2; each encoded by the implementation, decoded by the implementation, compared observation by "
+                "observation (all accessors incl. lengths/padding); in-domain = wire domain (model oracle) and dictionary-typed and depth <= limit "
+                "(computed independently in the orchestrator); non-trivial = at least one AVP")
+    chk.assumptions = ["dictionary contents as read by xml.etree agree with serde-xml-rs (checked by C14/C15)"]
+
+
+# ------------------------------------------------------------------ frames for C03 / C04
+def corpus_frames(rng, eng, nhist):
+    """reference-encoded frames of generated in-domain messages: (dictid, frame, tyof)"""
+    cases = gen_histories(rng, eng, nhist, big=False)
+    model = eng.ask_model(cases)
+    out = []
+    for c, m in zip(cases, model):
+        mobs, o = split_obs(m)
+        if o.get("WD") == "1" and mobs.startswith("R ok"):
+            did = c.split()[1]
+            try:
+                mm = parse_result(mobs)["msg"]
+            except Exception:
+                continue
+            if typed_by(eng.dicts[did], mm) and msg_depth(mm) <= (eng.lim or 0) and len(o["SPEC"]) < 6000:
+                out.append((did, bytes.fromhex(o["SPEC"][1:])))
+    return out
+
+
+def frame_families(rng, eng, frames, per_frame, thorough=False):
+    """(kind, dictid, frame, must_accept) for every family of section 6"""
+    out = []
+    for i, (did, fr) in enumerate(frames):
+        r = rng.fork(f"fr{i}")
+        nodes = gen.walk_frame(fr, eng.tyof(did))
+        out.append(("wellformed", did, fr, True))
+        for _ in range(3):
+            out.append(("freebits", did, gen.mutate_free_bits(r, fr, nodes), True))
+        lr = gen.length_rewrites(fr, nodes)
+        if not thorough:
+            lr = r.shuffle(lr)[: per_frame]
+        for k, f in lr:
+            out.append((k, did, f, False))
+        for k, f in gen.hostile_variants(r, fr, nodes, per_frame):
+            out.append((k, did, f, False))
+        if thorough or i % 8 == 0:
+            for cut in range(0, len(fr)):
+                out.append(("truncate", did, fr[:cut], False))
+        if thorough:
+            for pos in range(len(fr)):
+                f = bytearray(fr)
+                f[pos] ^= 1 << r.below(8)
+                out.append(("bitflip", did, bytes(f), False))
+    for k, f in gen.random_frames(rng.fork("rand"), len(frames) * 4):
+        out.append((k, "g", f, False))
+    return out
+
+
+def is_complete(fr):
+    return len(fr) >= 4 and int.from_bytes(fr[1:4], "big") == len(fr)
+
+
+def check_C03(chk, tier, seed):
+    rng = Rng(seed).fork("C03")
+    eng = engine_codec.setup(chk, rng)
+    limit_checks(chk, "C03", eng)
+    nh = 500 if tier == "quick" else 6000
+    frames = corpus_frames(rng, eng, nh)
+    frames = frames[: (160 if tier == "quick" else 3000)]
+    fam = frame_families(rng, eng, frames, 20 if tier == "quick" else 60, thorough=(tier == "thorough" and False))
+    fam += [("regress", c.split()[1], bytes.fromhex(c.split()[2][1:]), False) for c in regress_cases("C03") if c.startswith("X ")]
+    cases = [f"X {did} {xb(f)}" for (_, did, f, _) in fam]
+    impl, model = eng.run(cases)
+    # oracle: is the returned tree the one the octets denote, and what is its reference encoding
+    chk_lines, chk_idx = [], []
+    for i, ((kind, did, f, must), im) in enumerate(zip(fam, impl)):
+        if im.startswith("OK "):
+            chk_lines.append(f"CHK {did} {xb(f)} {msg_text(im)}")
+            chk_idx.append(i)
+    oracle = dict(zip(chk_idx, eng.ask_model(chk_lines))) if chk_lines else {}
+    for i, ((kind, did, f, must), c, im, mo) in enumerate(zip(fam, cases, impl, model)):
+        mobs, o = split_obs(mo)
+        comp = is_complete(f)
+        chk.case(c, len(f) > 20)
+        chk.count("kind:" + kind)
+        chk.count("complete" if comp else "incomplete")
+        chk.validated += 1
+        if im.startswith("PANIC") or im.startswith("CRASH"):
+            chk.count("impl:crash")
+            chk.violation("decoder crashed (see C04)", dict(case=c, impl=short(im)))
+            continue
+        acc = im.startswith("OK ")
+        chk.count("impl:accepted" if acc else "impl:rejected")
+        ok = True
+        if acc and comp:
+            t = oracle[i].split()
+            good_tree = t[1] == "1"
+            spec = t[3]
+            enc = im[im.rindex(" ENC ") + 5:]
+            why = []
+            if not good_tree:
+                why.append("the returned message is not the one an independent RFC 6733 reading of these octets gives")
+            if enc != spec:
+                why.append("re-encoding the returned message does not give the reference encoding of the tree")
+            elif (len(enc) - 1) // 2 != len(f):
+                why.append("re-encoding has a different length than the frame")
+            if why:
+                try:
+                    known = has_fixed_mismatch(parse_result(im)["msg"])
+                except Exception:
+                    known = False
+                if known and kf1_open("C03"):
+                    chk.known("KF-1")
+                    chk.count("known:KF-1")
+                else:
+                    ok = False
+                    chk.violation("; ".join(why), dict(case=c, kind=kind, impl=short(im, 3000), reference=short(spec, 3000)))
+        if (not acc) and must:
+            ok = False
+            chk.violation("a well-formed frame with known command, application and AVPs was rejected (padding octets / reserved bits must not matter)",
+                          dict(case=c, kind=kind, impl=short(im)))
+        if ok and im != mobs:
+            chk.corr_break("decoder observation differs from the model", dict(case=c, kind=kind, impl=short(im, 3000), model=short(mobs, 3000)))
+        if i % max(1, len(fam) // 6) == 0:
+            chk.sample(dict(case=short(c, 200), kind=kind, impl=short(im, 120), P=ok))
+    chk.rule = (f"{len(frames)} reference-encoded corpus frames; per frame: as is, 3 rewrites of padding octets/reserved bits (must be accepted, same tree), "
+                "length-field rewrites (message, AVP, nested AVP: 0..64, true+-{1,2,3,4,8}, 2^24-1 ...), structure-aware lies, havoc, truncations, "
+                "random octets; accepted complete frames judged by the extracted checker chk_msg + reference encoder; non-trivial = longer than the header")
+    chk.assumptions = ["KF-1 (fixed-size types ignore the declared length) is a recorded finding: cases in that class are counted, not reported"]
+
+
+def check_C04(chk, tier, seed):
+    rng = Rng(seed).fork("C04")
+    eng = engine_codec.setup(chk, rng)
+    lim, crash = limit_checks(chk, "C04", eng)
+    if crash is not None:
+        d, o = crash
+        chk.violation(f"decoding {d} nested grouped AVPs on a 2 MiB stack killed the worker: {o[:120]}",
+                      dict(case=f"X g {xb(gen.nested_groups_frame(d, [x for x in eng.dicts['g'].live() if x['ty'] == 'grp' and x['vendor'] is None][0]['code']))}"[:200000],
+                           depth=d, impl=short(o)))
+    elif lim is None:
+        chk.violation("no nesting limit: the decoder recursed through every depth tried (up to 131000 levels in a 1 MiB frame)",
+                      dict(case="nested groups", impl="accepted all depths"))
+    nh = 300 if tier == "quick" else 4000
+    frames = corpus_frames(rng, eng, nh)[: (120 if tier == "quick" else 2000)]
+    fam = frame_families(rng, eng, frames, 25 if tier == "quick" else 80, thorough=(tier == "thorough"))
+    fam += [("regress", c.split()[1], bytes.fromhex(c.split()[2][1:]), False) for c in regress_cases("C04") if c.startswith("X ")]
+    # nesting sweep: every depth 1..70, then up to what fits 1 MiB (quick) / 16 MiB is out of the stream limit but legal for decode_from
+    grp = [d for d in eng.dicts["g"].live() if d["ty"] == "grp" and d["vendor"] is None][0]
+    depths = list(range(1, 71)) + [100, 500, 1000, 5000, 20000, 60000, 131000]
+    if tier == "thorough":
+        depths += [500000, 2000000]
+    for d in depths:
+        fam.append(("nest", "g", gen.nested_groups_frame(d, grp["code"]), False))
+        fam.append(("nest-vendor", "g", gen.nested_groups_frame(min(d, 80000), grp["code"] + 1000, vendor=10415), False))
+    cases = [f"X {did} {xb(f)}" for (_, did, f, _) in fam]
+    impl = core.run_sharded([eng.harness, "codec"], eng.prelude, cases, timeout=900)
+    small = [i for i, (_, _, f, _) in enumerate(fam) if len(f) <= 200000]
+    model = dict(zip(small, core.run_sharded([eng.runner], eng.prelude, [cases[i] for i in small], unlimited_stack=True, timeout=900)))
+    for i, ((kind, did, f, _), c, im) in enumerate(zip(fam, cases, impl)):
+        chk.case(c if len(c) < 5000 else core.sha(c), len(f) > 0)
+        chk.count("kind:" + kind)
+        chk.validated += 1
+        if im.startswith("PANIC") or im.startswith("CRASH"):
+            chk.count("impl:crash")
+            chk.violation("decoder did not return: " + short(im, 160), dict(case=short(c, 200000), kind=kind, impl=short(im)))
+            continue
+        chk.count("impl:" + im.split()[0])
+        if i in model:
+            mobs, _ = split_obs(model[i])
+            if mobs.startswith("PANIC") or mobs.startswith("OUTOFFUEL"):
+                chk.corr_break("model outcome " + mobs[:12] + " (contradicts theorem C04_never_panics: the runner is broken)", dict(case=short(c, 3000)))
+            elif im != mobs:
+                known = False
+                if im.startswith("OK "):
+                    try:
+                        known = has_fixed_mismatch(parse_result(im)["msg"])
+                    except Exception:
+                        pass
+                if not known:
+                    chk.corr_break("decoder observation differs from the model", dict(case=short(c, 3000), kind=kind, impl=short(im, 2000), model=short(mobs, 2000)))
+        if i % max(1, len(fam) // 6) == 0:
+            chk.sample(dict(case=short(c, 160), kind=kind, impl=short(im, 100)))
+    chk.rule = ("every family of hostile frame (truncations, length-field sweeps, lies, havoc, random) over the corpus + nesting 1..70 and up to 131000 levels "
+                "(1 MiB); decoded on a 2 MiB thread in a worker process, returned messages are formatted (Display), inspected through every accessor and "
+                "re-encoded; P = the worker returned Ok or Err (no unwind, abort, hang); non-trivial = non-empty input")
+    chk.assumptions = ["stack bytes per frame, allocator behaviour and wall-clock time are runtime facts established by execution only (partial)"]
+
+
+# ------------------------------------------------------------------ C05
+def writer_behaviours(r, n):
+    """per-call behaviours: '' default, caps, interruptions"""
+    k = r.below(5)
+    if k == 0:
+        return []
+    if k == 1:
+        return ["1"] * n                      # one octet per call
+    out = []
+    for _ in range(r.range(1, 40)):
+        out.append("i" if r.chance(1, 4) else hx(r.choice([1, 1, 2, 3, 4, 7, 8, 64, 1000])))
+    return out
+
+
+def check_C05(chk, tier, seed):
+    rng = Rng(seed).fork("C05")
+    eng = engine_codec.setup(chk, rng, need_limit=False)
+    nmsg = 40 if tier == "quick" else 400
+    hist = [c for c in gen_histories(rng, eng, nmsg * 3, big=False)]
+    impl_h, model_h = eng.run(hist)
+    corpus = []
+    for c, im, mo in zip(hist, impl_h, model_h):
+        mobs, o = split_obs(mo)
+        if o.get("WD") == "1" and len(o["SPEC"]) < 1400 and im.startswith("R ok"):
+            corpus.append((c, bytes.fromhex(o["SPEC"][1:])))
+        if len(corpus) >= nmsg:
+            break
+    cases, expect = [], []
+    for i, (c, frame) in enumerate(corpus):
+        r = rng.fork(f"w{i}")
+        body = c[2:]            # "<dict> <history...>"
+        n = len(frame)
+        ks = list(range(0, n)) + [n, n + 1, n + 100]
+        if tier == "quick" and n > 160:
+            ks = sorted(set(r.shuffle(list(range(0, n)))[:160] + [0, 1, 19, 20, 21, n - 1, n, n + 1]))
+        for k in ks:
+            b = writer_behaviours(r, n)
+            cases.append(f"W {body} {hx(k)} {len(b)}" + "".join(" " + x for x in b))
+            expect.append(("fault", frame, k))
+    # values the wire cannot carry
+    tdef = [d for d in eng.dicts["g"].live() if d["ty"] == "time" and d["vendor"] is None][0]
+    gdef = [d for d in eng.dicts["g"].live() if d["ty"] == "grp" and d["vendor"] is None][0]
+    for t, inr in [(-2208988801, False), (-2208988800, True), (2085978495, True), (2085978496, False), (2208988800, False),
+                   (-5000000000, False), (4102444800, False), (0, True), (-1, True)]:
+        for wrap in (0, 1, 2):
+            v = ("L", ("time", t))
+            e = ("E", tdef["code"], None, 0x40, v)
+            for _ in range(wrap):
+                e = ("E", gdef["code"], None, 0, ("GN", [("E", 1011, None, 0, ("L", ("oct", b"ab"))), e]))
+            line = hist_line("g", ("NEW", 272, 4, 0x80, 1, 2), [("ADD", e), ("ADDAVP", 1011, None, 0, ("L", ("oct", b"xyz")))])
+            cases.append(f"W {line[2:]} {hx(100000)} 0")
+            expect.append(("time", inr, t))
+    impl, model = eng.run(cases)
+    # sizes at and past 2^24: implementation only (the theorem C05_unrepresentable covers the model side)
+    big = []
+    for n, ok in [((1 << 24) - 8 - 20 - 4, True), ((1 << 24) - 8 - 20, False), ((1 << 24) - 8, False), ((1 << 24) - 4, False)]:
+        if tier == "quick" and n == (1 << 24) - 4:
+            continue
+        big.append((f"W g NEW 110 4 80 1 2 1 ADDAVP 3f3 - 0 L octz {hx(n)} {hx(1 << 26)} 0", n, ok))
+    big_out = core.run_sharded([eng.harness, "codec"], eng.prelude, [b[0] for b in big], shards=min(4, len(big)), timeout=900)
+    for (c, n, ok), o in zip(big, big_out):
+        chk.case(c, True)
+        chk.count("big")
+        chk.validated += 1
+        t = o.split()
+        total = 20 + 8 + n + (4 - n % 4) % 4
+        if len(t) < 4 or t[0] != "W":
+            chk.violation("encoder did not return on a large message: " + short(o, 200), dict(case=c, impl=short(o)))
+        elif ok:
+            if not (t[1] == "ok" and int(t[2], 16) == total and t[3][3:9] == "%06x" % total):
+                chk.violation("a message just below 2^24 octets was not encoded faithfully", dict(case=c, impl=short(o), expected_octets=total))
+        elif t[1] == "ok":
+            chk.violation("encoding reported success for a message/AVP of 2^24 octets or more (its 24-bit length field cannot say so)",
+                          dict(case=c, impl=short(o), avp_length=8 + n, message_length=total))
+    for i, (c, ex, im, mo) in enumerate(zip(cases, expect, impl, model)):
+        mobs, o = split_obs(mo)
+        chk.case(c, True)
+        chk.validated += 1
+        t = im.split()
+        if len(t) < 4 or t[0] != "W":
+            chk.violation("encoder did not return a result: " + short(im, 200), dict(case=c, impl=short(im)))
+            continue
+        ok = True
+        if ex[0] == "fault":
+            _, frame, k = ex
+            chk.count("fault:k<len" if k < len(frame) else "fault:k>=len")
+            want_ok = k >= len(frame)
+            want_acc = frame[:k] if k < len(frame) else frame
+            got_acc = bytes.fromhex(t[3][1:])
+            if t[1] == "ok" and got_acc != frame:
+                ok = False
+                chk.violation("encoding reported success although the writer had not accepted the complete frame",
+                              dict(case=c, impl=short(im, 3000), frame=xb(frame), budget=k))
+            elif (t[1] == "ok") != want_ok:
+                ok = False
+                chk.violation("a writer that accepts every octet (short writes / interruptions only) made encoding fail" if want_ok else
+                              "encoding reported success although the writer failed",
+                              dict(case=c, impl=short(im, 3000), frame=xb(frame), budget=k))
+            elif got_acc != want_acc:
+                ok = False
+                chk.violation("the octets handed to the writer are not a prefix of the frame up to the fault",
+                              dict(case=c, impl=short(im, 3000), frame=xb(frame), budget=k))
+        else:
+            _, inr, tval = ex
+            chk.count("time:in" if inr else "time:out")
+            if (t[1] == "ok") != inr:
+                ok = False
+                chk.violation(("a Time the wire cannot carry (%d s from 1970) was encoded with success" % tval) if not inr else
+                              "a representable Time was refused", dict(case=c, impl=short(im, 3000), model=short(mobs, 3000)))
+        if ok and o.get("CAPS") == "1" and "?" not in mobs.split()[:4] and im != mobs:
+            chk.corr_break("encode_to observation differs from the model", dict(case=c, impl=short(im, 2000), model=short(mobs, 2000)))
+        if i % max(1, len(cases) // 6) == 0:
+            chk.sample(dict(case=short(c, 200), impl=short(im, 120), P=ok))
+    chk.rule = (f"{len(corpus)} in-domain corpus messages x every budget k in [0, len) (quick: all k up to 160 octets, else 160 sampled incl. boundaries) and k >= len, "
+                "each with default / one-octet-per-call / random capped+interrupted writer behaviour; Times at and beyond both ends of the wire range at "
+                "nesting 0..2; AVP/message sizes 2^24-32 .. 2^24 (implementation only); reference frame from the extracted reference encoder")
+    chk.assumptions = ["std::io::Write contract (write_all retries Interrupted, Ok(0) is WriteZero) modelled", "a writer returning Ok(0) is outside the quantifier"]
+
+
+# ------------------------------------------------------------------ C18
+def check_C18(chk, tier, seed):
+    rng = Rng(seed).fork("C18")
+    eng = engine_codec.setup(chk, rng)
+    n = 2500 if tier == "quick" else 100000
+    hist = exhaustive_type_table(eng)[::3] + gen_histories(rng, eng, n, big=False)
+    # decoded starting points too
+    frames = corpus_frames(rng.fork("dec"), eng, 300 if tier == "quick" else 5000)
+    for i, (did, fr) in enumerate(frames[: (200 if tier == "quick" else 4000)]):
+        r = rng.fork(f"e{i}")
+        _, ops = gen.gen_history(r, eng.dicts[did], maxops=3, depth=2)
+        hist.append(hist_line(did, ("DEC", fr), ops))
+    cases = []
+    for i, h in enumerate(hist):
+        r = rng.fork(f"q{i}")
+        did = h.split()[1]
+        live = eng.dicts[did].live()
+        used = [int(x, 16) for x in re.findall(r"(?:ADDAVP|E) ([0-9a-f]+) ", h)] or [1]
+        codes = [r.choice(used) for _ in range(3)] + [r.choice(live)["code"], 1000 + r.below(17), 2000 + r.below(17), 999999]
+        cases.append("G" + h[1:] + f" {len(codes)} " + " ".join(hx(c) for c in codes))
+    impl, model = eng.run(cases)
+    impl_h, _ = eng.run(hist) if False else (None, None)
+    himpl = core.run_sharded([eng.harness, "codec"], eng.prelude, hist)
+    for i, (c, h, im, mo, hi) in enumerate(zip(cases, hist, impl, model, himpl)):
+        chk.validated += 1
+        if im.startswith("R err") or im.startswith("PANIC") or not hi.startswith("R ok"):
+            chk.case(c, False)
+            if im != mo:
+                chk.corr_break("start outcome differs", dict(case=short(c, 2000), impl=short(im), model=short(mo)))
+            continue
+        try:
+            m = parse_result(hi)["msg"]
+            head, q = im.split(" Q")
+            items = head.split()[2:]
+            qs = q.split()
+        except Exception as e:
+            chk.violation(f"unparsable accessor observation: {e}", dict(case=short(c, 2000), impl=short(im)))
+            continue
+        chk.case(c, len(m["avps"]) >= 2)
+        why = []
+        if len(items) != len(m["avps"]):
+            why.append("get_avps() does not list every top-level AVP")
+        else:
+            for a, it in zip(m["avps"], items):
+                w = getter_mismatch(a, it)
+                if w:
+                    why.append(w)
+                    break
+        codes = [int(x, 16) for x in c.split()[-len(qs):]]
+        for code, got in zip(codes, qs):
+            want = next((str(j) for j, a in enumerate(m["avps"]) if int(a["code"], 16) == code), "none")
+            chk.count("lookup:hit" if want != "none" else "lookup:miss")
+            if sum(1 for a in m["avps"] if int(a["code"], 16) == code) > 1:
+                chk.count("lookup:repeated-code")
+            if got != want:
+                why.append(f"get_avp({code}) returned {got}, the first AVP with that code in wire order is {want}")
+        if why:
+            chk.violation("; ".join(why[:3]), dict(case=short(c, 3000), impl=short(im, 3000), message=short(hi, 3000)))
+        elif im != mo:
+            chk.corr_break("accessor observation differs from the model", dict(case=short(c, 3000), impl=short(im, 3000), model=short(mo, 3000)))
+        if i % max(1, len(cases) // 6) == 0:
+            chk.sample(dict(case=short(c, 200), impl=short(im, 200), P=not why))
+    chk.rule = ("type table + generated construction histories (repeated codes under different vendors/types, groups) + decoded-then-extended frames; "
+                "for the final message: all 16 typed accessors on every AVP (recursively through Grouped::avps()), get_avp for 7 codes (present, repeated, "
+                "absent) identified by pointer position in get_avps(); non-trivial = at least two top-level AVPs")
+
+
+def getter_mismatch(a, item):
+    """item = '[mask|render]' for the observed AVP a; returns a description or None"""
+    if not (item.startswith("[") and item.endswith("]")) or "|" not in item:
+        return "malformed getter observation"
+    mask, render = item[1:-1].split("|", 1)
+    v = a["val"]
+    kind = KIND_TY.get(v[1]) if v[0] == "L" else "grp"
+    want = "".join("1" if t == kind else "0" for t in TYS[1:])
+    if mask != want:
+        return f"typed accessors answer {mask} for a value of type {kind} (expected {want})"
+    if v[0] == "L":
+        if render != f"L,{v[1]},{v[2]}":
+            return f"typed accessor returned {render}, the AVP holds L,{v[1]},{v[2]}"
+        return None
+    parts = split_top(render)
+    if parts[0] != "G" or int(parts[1]) != len(v[1]) or len(parts) != 2 + len(v[1]):
+        return "group member accessor does not list the members"
+    for x, it in zip(v[1], parts[2:]):
+        w = getter_mismatch(x, it)
+        if w:
+            return w
+    return None
+
+
+def split_top(s):
+    """split on commas that are not inside brackets"""
+    out, depth, cur = [], 0, []
+    for ch in s:
+        if ch == "[":
+            depth += 1
+        elif ch == "]":
+            depth -= 1
+        if ch == "," and depth == 0:
+            out.append("".join(cur))
+            cur = []
+        else:
+            cur.append(ch)
+    out.append("".join(cur))
+    return out
